@@ -75,6 +75,10 @@ func ClientHandshake(c net.Conn, cryptoHandshake bool, infoHash hash.Hash, myid 
 			return
 		}
 	} else {
+		if cryptoOptions.ForceEncryption {
+			err = errors.New("plaintext handshake forbidden")
+			return
+		}
 		_, err = conn.Write(hshk)
 		if err != nil {
 			return
@@ -157,7 +161,8 @@ func ServerHandshake(c net.Conn, hashes []hash.HashPair, cryptoOptions *crypto.O
 	buf = buf[:n]
 
 	ok := checkHeader(buf)
-	if ok && cryptoOptions.ForceCryptoHandshake {
+	if ok && (cryptoOptions.ForceCryptoHandshake ||
+		cryptoOptions.ForceEncryption) {
 		err = errors.New("plaintext handshake forbidden")
 		return
 	}
